@@ -287,17 +287,22 @@ Definition get_shuffled_node_names (g : lgraph) (perms : list (list nat)) : outc
 
 Definition nonempty (l : list nat) : bool := match l with [] => false | _ => true end.
 
-(* louvain.rs compute_one_level *)
-Definition compute_one_level (fuel : nat) (g : lgraph) (m : Q) (partition : list (list nat))
-           (resolution : Q) (perms : list (list nat))
-  : outcome (list (list nat) * list (list nat) * bool * bool) :=
+(* louvain.rs compute_one_level: the local-moving phase, up to the final bookkeeping state ... *)
+Definition compute_one_level_state (fuel : nat) (g : lgraph) (m : Q) (partition : list (list nat))
+           (resolution : Q) (perms : list (list nat)) : outcome lstate :=
   let names := sort_by Nat.ltb (map nname (get_all_nodes g)) in
   let node2com := map (fun n => (n, n)) names in
   let inner := map_node_names_to_hashsets g in
   do di <- get_degree_information g partition;
   do order <- get_shuffled_node_names g perms;
-  do s <- sweeps fuel g m resolution (successors g) (predecessors g) order
-            (mkls partition inner node2com di 1 false false);
+  sweeps fuel g m resolution (successors g) (predecessors g) order
+         (mkls partition inner node2com di 1 false false).
+
+(* ... and the filtered result *)
+Definition compute_one_level (fuel : nat) (g : lgraph) (m : Q) (partition : list (list nat))
+           (resolution : Q) (perms : list (list nat))
+  : outcome (list (list nat) * list (list nat) * bool * bool) :=
+  do s <- compute_one_level_state fuel g m partition resolution perms;
   Ok (filter nonempty (ls_partition s), filter nonempty (ls_inner s), ls_improved s, ls_tie s).
 
 (* edges sorted by (u, v): the repaired accumulation order of generate_graph *)
